@@ -2044,7 +2044,8 @@ impl Vm {
         if !verif::instruction_hook_active() {
             return Ok(());
         }
-        if !verif::take_step() {
+        // (Not at offset 0: the error report needs an already-fetched instruction to name a line.)
+        if !verif::take_step() && self.active_chunk.code_offset(self.ip) > 0 {
             return Err(error!(
                 ErrorKind::RuntimeError,
                 "verif: step budget exhausted."
